@@ -249,6 +249,7 @@ def judge(root, before, after, named, mounts, extra_allowed_dirs=()):
                 oc.why = 'lost'            # gone from origin, nowhere in trash
             elif gone and cands:
                 oc.why = 'payload-' + cands[0][3]   # in trash but info missing/wrong
+                oc.tdir, oc.name = cands[0][1], cands[0][2]
                 used_payloads.add((cands[0][1], cands[0][2]))
                 for k in Wd.subtree(after, cands[0][1] + '/files/' + cands[0][2]):
                     explained_added.add(cands[0][1] + '/files/' + cands[0][2] + k)
